@@ -15,6 +15,7 @@ import (
 	"strings"
 	"sync"
 	"time"
+	"unicode/utf8"
 
 	"verif/harness/sandbox"
 )
@@ -23,22 +24,26 @@ import (
 // Steps
 
 type Edit struct {
-	Op    string `json:"op"` // write | rm | rmdir | mkdir | touch
-	Path  string `json:"path"`
-	Data  []byte `json:"-"`
-	B64   string `json:"bytes_b64,omitempty"`
-	MTime int64  `json:"mtime,omitempty"`
+	Op   string `json:"op"` // write | rm | rmdir | mkdir | touch
+	Path string `json:"path"`
+	Data []byte `json:"-"`
+	B64  string `json:"bytes_b64,omitempty"`
+	// set in a witness when Path is not valid UTF-8 (JSON strings cannot carry such bytes)
+	PathB64 string `json:"path_b64,omitempty"`
+	MTime   int64  `json:"mtime,omitempty"`
 }
 
 type Step struct {
-	Seq    int               `json:"seq"`
-	Kind   string            `json:"kind"` // goit | edit
-	Argv   []string          `json:"argv,omitempty"`
-	TZ     string            `json:"tz,omitempty"`
-	Cwd    string            `json:"cwd,omitempty"` // relative to the working tree; "" = the repository root
-	Env    map[string]string `json:"env,omitempty"`
-	Edit   *Edit             `json:"edit,omitempty"`
-	Intent map[string]string `json:"gen,omitempty"`
+	Seq  int      `json:"seq"`
+	Kind string   `json:"kind"` // goit | edit
+	Argv []string `json:"argv,omitempty"`
+	// set in a witness when some argument is not valid UTF-8: the exact bytes of every argument
+	ArgvB64 []string          `json:"argv_b64,omitempty"`
+	TZ      string            `json:"tz,omitempty"`
+	Cwd     string            `json:"cwd,omitempty"` // relative to the working tree; "" = the repository root
+	Env     map[string]string `json:"env,omitempty"`
+	Edit    *Edit             `json:"edit,omitempty"`
+	Intent  map[string]string `json:"gen,omitempty"`
 
 	Pre  *sandbox.Snap   `json:"-"`
 	Post *sandbox.Snap   `json:"-"`
@@ -69,6 +74,8 @@ func (s *Step) String() string {
 			return fmt.Sprintf("edit rand %q (%d pseudo-random bytes, seed %q)", s.Edit.Path, s.Edit.MTime, s.Edit.Data)
 		case "symlink":
 			return fmt.Sprintf("edit symlink %q -> %q", s.Edit.Path, s.Edit.Data)
+		case "chmod":
+			return fmt.Sprintf("edit chmod %o %q", s.Edit.MTime, s.Edit.Path)
 		}
 		return fmt.Sprintf("edit %s %q", s.Edit.Op, s.Edit.Path)
 	}
@@ -296,6 +303,18 @@ func (c *Ctx) writeWitnessSlot(w *Witness, n int) string {
 		if s.Edit != nil && s.Edit.Data != nil {
 			s.Edit.B64 = base64.StdEncoding.EncodeToString(s.Edit.Data)
 		}
+		if s.Edit != nil && !utf8.ValidString(s.Edit.Path) {
+			s.Edit.PathB64 = base64.StdEncoding.EncodeToString([]byte(s.Edit.Path))
+		}
+		for _, a := range s.Argv {
+			if !utf8.ValidString(a) {
+				s.ArgvB64 = nil
+				for _, a := range s.Argv {
+					s.ArgvB64 = append(s.ArgvB64, base64.StdEncoding.EncodeToString([]byte(a)))
+				}
+				break
+			}
+		}
 	}
 	dir := filepath.Join(c.VerifDir, "replay")
 	os.MkdirAll(dir, 0o777)
@@ -321,6 +340,18 @@ func LoadWitness(path string) (*Witness, error) {
 		}
 		if s.Edit != nil && s.Edit.Op == "write" && s.Edit.Data == nil {
 			s.Edit.Data = []byte{}
+		}
+		if s.Edit != nil && s.Edit.PathB64 != "" {
+			if b, err := base64.StdEncoding.DecodeString(s.Edit.PathB64); err == nil {
+				s.Edit.Path = string(b)
+			}
+		}
+		if len(s.ArgvB64) == len(s.Argv) {
+			for i, a := range s.ArgvB64 {
+				if b, err := base64.StdEncoding.DecodeString(a); err == nil {
+					s.Argv[i] = string(b)
+				}
+			}
 		}
 	}
 	return &w, nil
@@ -454,6 +485,18 @@ func applyEdit(sb *sandbox.Sandbox, e *Edit) {
 	case "touch":
 		t := time.Unix(e.MTime, 0)
 		os.Chtimes(p, t, t)
+	case "chmod": // MTime = permission bits plus 0o4000 setuid, 0o2000 setgid, 0o1000 sticky
+		m := os.FileMode(e.MTime & 0o777)
+		if e.MTime&0o4000 != 0 {
+			m |= os.ModeSetuid
+		}
+		if e.MTime&0o2000 != 0 {
+			m |= os.ModeSetgid
+		}
+		if e.MTime&0o1000 != 0 {
+			m |= os.ModeSticky
+		}
+		os.Chmod(p, m)
 	case "symlink": // Data = target (may dangle)
 		os.MkdirAll(filepath.Dir(p), 0o777)
 		os.Remove(p)
@@ -489,6 +532,14 @@ func RandBytes(seed string, n int64) []byte {
 // EditMany writes many small files in one monitored step (gen is the number put into every file).
 func (w *World) EditMany(paths []string, gen int64) *Step {
 	e := &Edit{Op: "many", Path: ".", Data: []byte(strings.Join(paths, "\n")), MTime: gen}
+	st := &Step{Seq: len(w.Steps), Kind: "edit", Edit: e, Intent: w.intent()}
+	w.exec(st)
+	return st
+}
+
+// Chmod changes the mode bits of a working file (content and times stay).
+func (w *World) Chmod(path string, mode int64) *Step {
+	e := &Edit{Op: "chmod", Path: path, MTime: mode}
 	st := &Step{Seq: len(w.Steps), Kind: "edit", Edit: e, Intent: w.intent()}
 	w.exec(st)
 	return st
